@@ -212,7 +212,7 @@ class Gen:
         rule = {"out": c.weighted([("inference", 3), ("let", 1)]), "base": self.conclusion(bound), "branches": []}
         for _ in range(c.weighted([(0, 2), (1, 4), (2, 2)])):
             rule["branches"].append(self.branch(bound, 1))
-        if c.chance(0.2):
+        if c.chance(self.cfg.get("early_p", 0.2)):
             # the query object is evaluated once (k results, -1: to the end) BEFORE the rules are attached to it
             rule["early"] = c.pick([-1, -1, 0, 1, 2])
         return {"q": "an", "shape": "entity", "sel": [], "conds": conds, "rule": rule}
